@@ -1,5 +1,13 @@
 import json
 CHECKS = {
+ 'C05': dict(
+   text="Each case is one generated program of nested routines (SystemClock, TempoClocks of arbitrary tempo, AppClock in NRT) executed by real sc3 in four worlds - RT fault-free, RT under two different seeded fault/schedule tapes (wake-up latency, execution cost, stalls, PCT/random/sticky/round-robin scheduling), NRT - and compared with an independent logical-time model (1e-9) and bit-exactly across the RT schedules; plus child-start, current-thread and NRT monotonicity oracles. Exploration, not proof.",
+   note="Trusts the shims; the model re-implements the documented affine tempo map and grid; a seconds->beats->seconds round trip may move a child one ulp before its parent (tolerated at 1e-9).",
+   tech="deterministic simulation with fault injection (same program under several seeded schedules/fault tapes, differential + reference model)"),
+ 'C07': dict(
+   text="Generated programs of routines and main-thread code sending messages and nested bundles with arbitrary latencies, run by real sc3 in the RT world under faults (datagrams captured at the socket seam, decoded by an independent strict OSC codec, optionally looped back to OscFunc responders) and in the NRT world (score list, raw form, tail marker against a model). Exploration, not proof.",
+   note="Trusts the shims and the independent codec; main-thread sends are checked against the virtual-time interval of the call; nested-bundle refusal with an 'immediate' parent and sub is treated as unspecified.",
+   tech="deterministic simulation with fault injection (captured wire traffic vs timetag model; NRT score vs model)"),
  'C08': dict(
    text="Seeded search over thread interleavings, wake-up latencies, execution cost, stalls and raising tasks of real sc3 clocks (SystemClock, AppClock, 0-3 TempoClocks, OSC receive thread, user threads) under a deterministic baton kernel with virtual time; oracles: exactly-once, never-early, quiescence invariant (no lost wake-up / oversleep), exact lateness in fault-free runs, order with FIFO ties, reschedule base, clear/stop, error recovery. Exploration, not proof.",
    note="Trusts the threading/time/socket shims to implement CPython semantics; pre-emption at synchronisation points only; TempoClock beat<->second conversion is taken from the clock (checked by C12).",
